@@ -379,4 +379,5 @@ VARIANTS = [
     V("silent-refactored-exponent", G, "                -1\n                * (\n                    (new_regularity - previous_regularity) * temperature_inv\n                    + (new_attachment - previous_attachment)\n                )",
       "                (previous_attachment - new_attachment)\n                + temperature_inv * (previous_regularity - new_regularity)", None),
     V("silent-alpha-gt", B, "        return torch.rand(()) < alpha", "        return alpha > torch.rand(())", None),
+    V("silent-rename-previous", "src/leaspy/samplers/gibbs.py", "previous_attachment", "old_attachment", None, count=4),
 ]
